@@ -331,8 +331,7 @@ theorem asmSt_spec (mat : SMat K) (bd : BlockDiag K) (bc : Array Nat)
       obtain ⟨p1, p2⟩ := corrBlock_perm SqrtFn.sq mat bd.nonz bd.upperTable (offB bd n) (bd.dimOf (n + 1))
         (blockOcc mat (offB bd n) (bd.dimOf (n + 1))).length mat.cols (Array.replicate (mat.cols + 1) 0)
         (by intro c; simp [Array.getD]) (by simp)
-        (fun i h1 h2 => hcols _ (by omega) (by omega))
-        (fun i h1 h2 => hnd _ (by omega) (by omega)) rfl
+        (fun i h1 h2 => hcols _ (by omega) (by omega)) rfl
       congr 2
       apply array_ext_getD _ _ 0 (by rw [p1])
       intro r _
@@ -465,8 +464,7 @@ theorem Hom.finish_spec (mat : SMat K) (bd : BlockDiag K) (rhs : Array K) (Fs : 
       obtain ⟨_, hr⟩ := corrBlock_rows SqrtFn.sq mat bd.nonz bd.upperTable (rowsBefore Fs k) (Fs[k]'hk).dim
         (blockOcc mat (rowsBefore Fs k) (Fs[k]'hk).dim).length mat.cols (Array.replicate (mat.cols + 1) 0)
         (by intro c; simp [Array.getD]) (by simp)
-        (fun i h1 h2 => mat_cols_of_WF mat hmat _ (by omega) (by omega))
-        (fun i h1 h2 => mat_nodup_of mat hnodup _ (by omega) (by omega)) rfl
+        (fun i h1 h2 => mat_cols_of_WF mat hmat _ (by omega) (by omega)) rfl
       have hcongr2 : ∑ j ∈ Icc 1 i, (Fs[k]'hk).get i j *
           denseRow ((Hom.corrBlock mat bd.nonz bd.upperTable (rowsBefore Fs k) (Fs[k]'hk).dim
             (blockOcc mat (rowsBefore Fs k) (Fs[k]'hk).dim).length (Array.replicate (mat.cols + 1) 0)).1.getD (j - 1) []) c =
